@@ -1,4 +1,6 @@
-/* Contract for include/utils/mem_utils.h mem_replace_arr (C12), bounded route.
+/* Contract for include/utils/mem_utils.h mem_replace_arr (C12), bounded route, plus the
+ * harness vocabulary shared by the xml / bencode / mem_replace jobs (exact-size input objects,
+ * byte-loop memcpy/memmove models).
  *
  * Caller contract (legitimate preconditions, taken from the two in-tree callers xml_encode /
  * xml_decode and the parameter names): src is a span of src_size bytes, dst a span of dst_size
@@ -9,30 +11,151 @@
  * Property (C12): reads only the given spans, writes only dst[0..dst_size) and the two
  * out-parameters, never overflows (ENOBUFS instead), reported length <= capacity, terminates
  * (full unwinding with unwinding assertions).  "An exactly-sized destination suffices" is the
- * two-call obligation of harness/C12/mem_replace_exact.c.
+ * three-call obligation of harness/C12/mem_replace_exact.c.
+ *
+ * Why r_ok/w_ok and not is_fresh: is_fresh with a symbolic size creates objects of symbolic
+ * size; this function writes dst in unwound loops and the array theory then needs > 4 M
+ * variables for 3 source bytes (measured: > 300 s).  The harness instead hands in EXACT-size
+ * objects (VF_EXACT8 etc. below: one array per possible size, selected by the symbolic size), so an
+ * access one byte outside any span is still a failed pointer obligation, and the requires
+ * clauses only state what the harness established.  Writes are additionally confined by the
+ * assigns clause (checked by --dfcc on every store).
  */
 #ifndef VF_CONTRACTS_MEM_REPLACE_H
 #define VF_CONTRACTS_MEM_REPLACE_H
 #include "vf/vf.h"
 #include <errno.h>
+#include <stdlib.h>
+#include <string.h>
 
+/* ------------------------------------------------------------------------------------------
+ * VF_EXACT4/8/16(name, n): `uint8_t *name` points to an object of EXACTLY n bytes (n symbolic,
+ * n <= 3 / 8 / 16) with symbolic content.  CBMC: one array per possible size, the one of the
+ * right size is selected by n (n == 0: one-past pointer of a 1-byte object, every access
+ * fails); each array is recorded as input `<name>_o<size>` so that the native replay gets the
+ * counterexample's bytes.  Native replay: malloc(n), so ASan sees the same exact bounds.
+ * VF_EXACT*_OPT: additionally NULL when `isnull`.
+ * ------------------------------------------------------------------------------------------ */
+#ifndef VF_REPLAY
+#define VF_XO(name, k)	struct { uint8_t b[(k) ? (k) : 1]; } name##_o##k; __CPROVER_input(#name "_o" #k, name##_o##k);
+#define VF_XO_0_3(name)	VF_XO(name, 0) VF_XO(name, 1) VF_XO(name, 2) VF_XO(name, 3)
+#define VF_XO_4_8(name)	VF_XO(name, 4) VF_XO(name, 5) VF_XO(name, 6) VF_XO(name, 7) VF_XO(name, 8)
+#define VF_XO_9_16(name) VF_XO(name, 9) VF_XO(name, 10) VF_XO(name, 11) VF_XO(name, 12)	\
+	VF_XO(name, 13) VF_XO(name, 14) VF_XO(name, 15) VF_XO(name, 16)
+#define VF_XS_0_3(name, n, rest)						\
+	((n) == 0 ? name##_o0.b + 1 : (n) == 1 ? name##_o1.b : (n) == 2 ? name##_o2.b : rest)
+#define VF_XS_4_8(name, n, rest)						\
+	((n) == 3 ? name##_o3.b : (n) == 4 ? name##_o4.b : (n) == 5 ? name##_o5.b :	\
+	 (n) == 6 ? name##_o6.b : (n) == 7 ? name##_o7.b : rest)
+#define VF_XS_9_16(name, n)							\
+	((n) == 8 ? name##_o8.b : (n) == 9 ? name##_o9.b : (n) == 10 ? name##_o10.b :	\
+	 (n) == 11 ? name##_o11.b : (n) == 12 ? name##_o12.b : (n) == 13 ? name##_o13.b :	\
+	 (n) == 14 ? name##_o14.b : (n) == 15 ? name##_o15.b : name##_o16.b)
+#define VF_EXACT4(name, n)	VF_XO_0_3(name) __CPROVER_assume((n) <= 3);	\
+	uint8_t *name = VF_XS_0_3(name, n, name##_o3.b);
+#define VF_EXACT8(name, n)	VF_XO_0_3(name) VF_XO_4_8(name) __CPROVER_assume((n) <= 8);	\
+	uint8_t *name = VF_XS_0_3(name, n, VF_XS_4_8(name, n, name##_o8.b));
+#define VF_EXACT16(name, n)	VF_XO_0_3(name) VF_XO_4_8(name) VF_XO_9_16(name) __CPROVER_assume((n) <= 16); \
+	uint8_t *name = VF_XS_0_3(name, n, VF_XS_4_8(name, n, VF_XS_9_16(name, n)));
+#else
+static inline uint8_t *
+vf_exact_native(const char *name, size_t n) {
+	char key[128];
+	uint8_t *p = (uint8_t *)malloc(n);
+	snprintf(key, sizeof(key), "%s_o%zu", name, n);
+	if (n != 0)
+		vf_replay_get(key, p, n);
+	return (p);
+}
+#define VF_EXACT4(name, n)	VF_ASSUME((n) <= 3); uint8_t *name = vf_exact_native(#name, (n));
+#define VF_EXACT8(name, n)	VF_ASSUME((n) <= 8); uint8_t *name = vf_exact_native(#name, (n));
+#define VF_EXACT16(name, n)	VF_ASSUME((n) <= 16); uint8_t *name = vf_exact_native(#name, (n));
+#endif
+#define VF_EXACT4_OPT(name, n, isnull)	VF_EXACT4(name##_x, n) uint8_t *name = (isnull) ? NULL : name##_x;
+#define VF_EXACT8_OPT(name, n, isnull)	VF_EXACT8(name##_x, n) uint8_t *name = (isnull) ? NULL : name##_x;
+#define VF_EXACT16_OPT(name, n, isnull)	VF_EXACT16(name##_x, n) uint8_t *name = (isnull) ? NULL : name##_x;
+
+/* VF_TABLE2(T, name, k): `T *name` = table of EXACTLY k (<= 2) entries of type T (T one token). */
+typedef const void *vf_cvp;
+typedef const uint8_t *vf_cu8p;
+#ifndef VF_REPLAY
+#define VF_TABLE2(T, name, k)							\
+	T name##_t1[1], name##_t2[2];						\
+	__CPROVER_assume((k) <= 2);						\
+	T *name = (k) == 0 ? name##_t1 + 1 : (k) == 1 ? name##_t1 : name##_t2;
+#else
+#define VF_TABLE2(T, name, k)	VF_ASSUME((k) <= 2); T *name = (T *)malloc((k) * sizeof(T));
+#endif
+
+/* VF_FLUSH_END(name, n, MAX): `uint8_t *name` = the LAST n bytes of a MAX-byte object (n <= MAX,
+ * symbolic).  For destinations larger than 16 bytes: an overrun leaves the object (pointer
+ * obligation); a write before `name` is caught by the enforced assigns clause (dfcc jobs) or by
+ * the harness comparing the bytes in front of `name` (VF_FLUSH_END_UNTOUCHED, plain jobs).
+ * Native replay: malloc(n). */
+#ifndef VF_REPLAY
+#define VF_FLUSH_END(name, n, MAX)						\
+	uint8_t name##_obj[(MAX)], name##_cpy[(MAX)];				\
+	__CPROVER_assume((n) <= (MAX));						\
+	for (size_t vf_i = 0; vf_i < (MAX); vf_i ++)				\
+		name##_cpy[vf_i] = name##_obj[vf_i];				\
+	uint8_t *name = name##_obj + ((MAX) - (n));
+#define VF_FLUSH_END_UNTOUCHED(name, n, MAX)					\
+	for (size_t vf_i = 0; vf_i < (MAX); vf_i ++) {				\
+		if (vf_i < (MAX) - (n))						\
+			__CPROVER_assert(name##_obj[vf_i] == name##_cpy[vf_i], "no write in front of " #name); \
+	}
+#else
+#define VF_FLUSH_END(name, n, MAX)	VF_ASSUME((n) <= (MAX)); uint8_t *name = (uint8_t *)malloc((n));
+#define VF_FLUSH_END_UNTOUCHED(name, n, MAX)	do { } while (0)
+#endif
+
+/* ------------------------------------------------------------------------------------------
+ * Executable byte-loop models of memcpy/memmove for the bounded jobs (define
+ * VF_BYTE_LOOP_MEMCPY before including this file).  CBMC's built-in models copy through a
+ * variable-length temporary array, which does not scale when the length is symbolic and the
+ * call sits in an unwound loop; the loops below are the C11 7.24.2 definitions (memmove: copy
+ * direction chosen so that overlapping spans are handled).  Trusted; listed in assumptions.
+ * ------------------------------------------------------------------------------------------ */
+#if defined(VF_BYTE_LOOP_MEMCPY) && !defined(VF_REPLAY)
+void *memcpy(void *d, const void *s, size_t n) {
+	unsigned char *dp = (unsigned char *)d;
+	const unsigned char *sp = (const unsigned char *)s;
+	for (size_t i = 0; i < n; i ++)
+		dp[i] = sp[i];
+	return (d);
+}
+void *memmove(void *d, const void *s, size_t n) {
+	unsigned char *dp = (unsigned char *)d;
+	const unsigned char *sp = (const unsigned char *)s;
+	if (__CPROVER_same_object(d, s) && __CPROVER_POINTER_OFFSET(d) > __CPROVER_POINTER_OFFSET(s)) {
+		for (size_t i = n; i > 0; i --)
+			dp[i - 1] = sp[i - 1];
+	} else {
+		for (size_t i = 0; i < n; i ++)
+			dp[i] = sp[i];
+	}
+	return (d);
+}
+#endif
+
+/* ------------------------------------------------------------------------------------------ */
 #ifndef VF_MRA_SRC_MAX
-#define VF_MRA_SRC_MAX 6	/* src_size bound */
+#define VF_MRA_SRC_MAX 3	/* src_size bound */
 #endif
 #ifndef VF_MRA_DST_MAX
-#define VF_MRA_DST_MAX 10	/* dst_size bound */
+#define VF_MRA_DST_MAX 7	/* dst_size bound: >= VF_MRA_SRC_MAX * VF_MRA_PAT_MAX + 1 */
 #endif
 #ifndef VF_MRA_PAT_MAX
-#define VF_MRA_PAT_MAX 3	/* bytes per search / replacement pattern */
+#define VF_MRA_PAT_MAX 2	/* bytes per search / replacement pattern */
 #endif
-#define VF_MRA_K_MAX 2		/* patterns (the contract spells the table entries out) */
+#define VF_MRA_K_MAX 2		/* patterns */
 
-#ifndef VF_REPLAY
+#if !defined(VF_REPLAY) && !defined(VF_MRA_NO_CONTRACT)
 #define VF_MRA_ENTRY(i)								\
 	(repl_count <= (i) || (							\
 	    src_repl_counts[i] <= VF_MRA_PAT_MAX && dst_repl_counts[i] <= VF_MRA_PAT_MAX &&	\
-	    __CPROVER_is_fresh(src_repl[i], src_repl_counts[i]) &&		\
-	    __CPROVER_is_fresh(dst_repl[i], dst_repl_counts[i])))
+	    __CPROVER_r_ok(src_repl[i], src_repl_counts[i]) &&			\
+	    __CPROVER_r_ok(dst_repl[i], dst_repl_counts[i])))
 
 static inline int
 mem_replace_arr(const void *src, const size_t src_size, const size_t repl_count, void *tmp_arr,
@@ -40,17 +163,17 @@ mem_replace_arr(const void *src, const size_t src_size, const size_t repl_count,
     const void **dst_repl, const size_t *dst_repl_counts,
     void *dst, const size_t dst_size, size_t *dst_size_ret, size_t *replaced)
 __CPROVER_requires(src_size <= VF_MRA_SRC_MAX && dst_size <= VF_MRA_DST_MAX && repl_count <= VF_MRA_K_MAX)
-__CPROVER_requires(src == NULL || __CPROVER_is_fresh(src, src_size))
-__CPROVER_requires(dst == NULL || __CPROVER_is_fresh(dst, dst_size))
+__CPROVER_requires(src == NULL || __CPROVER_r_ok(src, src_size))
+__CPROVER_requires(dst == NULL || __CPROVER_w_ok(dst, dst_size))
 __CPROVER_requires(tmp_arr == NULL)	/* only used for more than 31 patterns */
-__CPROVER_requires(dst_size_ret == NULL || __CPROVER_is_fresh(dst_size_ret, sizeof(size_t)))
-__CPROVER_requires(replaced == NULL || __CPROVER_is_fresh(replaced, sizeof(size_t)))
-/* the four tables: all present, or (repl_count == 0 and) any of them absent */
+__CPROVER_requires(dst_size_ret == NULL || __CPROVER_w_ok(dst_size_ret, sizeof(size_t)))
+__CPROVER_requires(replaced == NULL || __CPROVER_w_ok(replaced, sizeof(size_t)))
+/* the four tables: all present with repl_count entries, or repl_count == 0 and a table absent */
 __CPROVER_requires((repl_count == 0 && (src_repl == NULL || dst_repl == NULL)) ||
-    (__CPROVER_is_fresh(src_repl, repl_count * sizeof(void *)) &&
-     __CPROVER_is_fresh(dst_repl, repl_count * sizeof(void *)) &&
-     __CPROVER_is_fresh(src_repl_counts, repl_count * sizeof(size_t)) &&
-     __CPROVER_is_fresh(dst_repl_counts, repl_count * sizeof(size_t)) &&
+    (__CPROVER_r_ok(src_repl, repl_count * sizeof(void *)) &&
+     __CPROVER_r_ok(dst_repl, repl_count * sizeof(void *)) &&
+     __CPROVER_r_ok(src_repl_counts, repl_count * sizeof(size_t)) &&
+     __CPROVER_r_ok(dst_repl_counts, repl_count * sizeof(size_t)) &&
      VF_MRA_ENTRY(0) && VF_MRA_ENTRY(1)))
 __CPROVER_assigns(dst != NULL && dst_size != 0: __CPROVER_object_upto(dst, dst_size))
 __CPROVER_assigns(dst_size_ret != NULL: *dst_size_ret; replaced != NULL: *replaced)
